@@ -108,13 +108,16 @@ def substituted_level(level, column_json, regex):
     keys = set(ALL_KEYS)
     for c in LEVEL_CONSTRAINTS:
         keys.update(c.keys())
-    column = {k: AnyValue() for k in keys}
-    column.update({k: cell_from_json(j) for k, j in column_json.items()})
+    columns = []
+    for cj in (column_json if isinstance(column_json, list) else [column_json]):
+        column = {k: AnyValue() for k in keys}
+        column.update({k: cell_from_json(j) for k, j in cj.items()})
+        columns.append(column)
     saved_cols = list(LEVEL_CONSTRAINTS)
     lv = Levels(level)
     saved_restr = LEVEL_SEQUENCE_RESTRICTIONS[lv]
     try:
-        LEVEL_CONSTRAINTS[:] = [c for c in saved_cols if level not in c["level"]] + [column]
+        LEVEL_CONSTRAINTS[:] = [c for c in saved_cols if level not in c["level"]] + columns
         LEVEL_SEQUENCE_RESTRICTIONS[lv] = LevelSequenceRestrictions("synthetic (vpbt C16)", regex)
         yield
     finally:
@@ -239,10 +242,10 @@ ALWAYS_CUSTOM = ("custom_dimensions_flag", "custom_clean_area_flag")  # tiny fra
 
 
 @st.composite
-def synthetic_columns(draw, cf):
+def synthetic_columns(draw, cf, tightness=("loose", "loose", "loose", "medium", "medium", "tight", "one_trivial", "one_trivial")):
     """(column json, meta) for the main stratum."""
     col, kinds = {"level": {"v": [SYN_LEVEL]}}, {}
-    tight = draw(st.sampled_from(["loose", "loose", "loose", "medium", "medium", "tight", "one_trivial", "one_trivial"]))
+    tight = draw(st.sampled_from(list(tightness)))
     K = KINDS["loose" if tight == "one_trivial" else tight]
     kinds["tightness"] = tight
     vp = cf["video_parameters"]
@@ -346,14 +349,14 @@ def cases(draw, stratum):
 
 
 @st.composite
-def real_cases(draw, levels=(1,)):
+def real_cases(draw, levels=(1,), max_base=4):
     """Level 1 (level 2 in dedicated thorough shards) configurations built from the real table."""
     cols = [(i, c) for i, c in H.real_columns() if H._cell_values(c["level"], [])[0] in levels]
     ci, col = cols[draw(st.integers(0, len(cols) - 1))]
     level = H._cell_values(col["level"], [])[0]
     bases = H._cell_values(col["base_video_format"], [])
     if level == 1:
-        bases = [b for b in bases if b <= 4]
+        bases = [b for b in bases if b <= max_base]
         bases = bases[:2] * 4 + bases  # prefer the 176 pixel wide ones (cost)
     b = draw(st.sampled_from(bases))
     pcm = PictureCodingModes(draw(st.sampled_from(H._cell_values(col["picture_coding_mode"], [0, 1]))))
@@ -402,18 +405,135 @@ def real_cases(draw, levels=(1,)):
 
 
 # ---------------------------------------------------------------------------
+# synthetic multi-column tables (several columns share the level number) - no pictures are encoded
+
+
+def own_rank(vp):
+    """Base formats with the configuration's field order, most similar first (harness' own count of differing keys)."""
+    cands = [int(b) for b, p in T.BASE_VIDEO_FORMAT_PARAMETERS.items() if bool(p.top_field_first) == bool(vp["top_field_first"])]
+    return sorted(cands, key=lambda b: sum(1 for k, v in H.base_vp(b).items() if vp[k] != v))
+
+
+@st.composite
+def multi_cases(draw, entry="make_sequence"):
+    """A format near a base video format (as C15's level-0 stratum) under a 2-3 column level: the columns list
+    different base formats and admit different custom flags / preset indices / values."""
+    c = draw(H.level0_configs())
+    cf = c["cf"]
+    cf["level"] = Levels(SYN_LEVEL)
+    cf["name"] = "c16multi"
+    vp = cf["video_parameters"]
+    ncols = draw(st.sampled_from([2, 2, 3]))
+    drawn = [draw(synthetic_columns(cf, ("loose", "loose", "medium"))) for _ in range(ncols)]
+    cols, kinds = [d[0] for d in drawn], {"columns": ncols}
+    # columns must agree on the keys the encoder filters on, else only one survives (kept for a fifth of the cases)
+    share = draw(st.integers(0, 4)) != 0
+    if share:
+        for cj in cols[1:]:
+            for k in TRIVIAL_KEYS:
+                cj[k] = cols[0][k]
+    kinds["trivial_shared"] = share
+    # base formats: disjoint sets (sometimes overlapping) of formats with the configuration's field order
+    ranked = own_rank(vp)
+    owner = draw(st.integers(0, ncols - 1))
+    assign = {b: draw(st.integers(0, ncols - 1)) for b in ranked}
+    assign[ranked[0]] = owner
+    for i, cj in enumerate(cols):
+        mine = [b for b in ranked if assign[b] == i]
+        if draw(st.integers(0, 5)) == 0 and i != owner:
+            mine.append(ranked[0])  # overlapping
+        if not mine:
+            mine = [draw(st.sampled_from(ranked[1:] or ranked))]
+        cj["base_video_format"] = {"v": sorted(set(mine))}
+    # directed difference: the column owning the most similar base format cannot express one group the
+    # configuration needs, another column can
+    mode = draw(st.sampled_from(["directed", "directed", "directed", "plain"]))
+    best = H.base_vp(ranked[0])
+    need = [g for g in H.FLAG_OF if any(vp[k] != best[k] for k in H.GROUP_KEYS[g])]
+    if mode == "directed" and need:
+        g = draw(st.sampled_from(need))
+        other = draw(st.sampled_from([i for i in range(ncols) if i != owner]))
+        how = draw(st.sampled_from(["flag_false", "flag_false", "value_excluded", "index_excluded"]))
+        idx_key = {v[0]: k for k, v in INDEX_KEYS.items()}.get(g)
+        if how == "index_excluded" and idx_key is None:
+            how = "value_excluded"
+        if how == "flag_false":
+            cols[owner][H.FLAG_OF[g]] = {"v": [False]}
+        elif how == "value_excluded":
+            k = draw(st.sampled_from(list(H.GROUP_KEYS[g])))
+            cols[owner][k] = {"v": _others(draw, k, vp[k])}
+            if idx_key:
+                cols[owner][idx_key] = {"v": [0]}
+        else:
+            cols[owner][idx_key] = {"v": []}
+        cols[other][H.FLAG_OF[g]] = draw(st.sampled_from(["any", {"v": [True]}, {"v": [False, True]}]))
+        for k in H.GROUP_KEYS[g]:
+            cols[other][k] = "any"
+        if idx_key:
+            cols[other][idx_key] = "any"
+        kinds["directed"] = "%s:%s" % (g, how)
+    else:
+        kinds["directed"] = "plain"
+    pname, regex = draw(st.sampled_from([("anything", ".*")] * 6 + [("sh_units", "sequence_header (sequence_header | padding_data | auxiliary_data)* end_of_sequence"),
+                                         ("trailing_padding", "sequence_header .* padding_data end_of_sequence"), ("real_level_1", REAL_L1_PATTERN)]))
+    if entry == "header_unit":
+        pname, regex = "anything", ".*"  # the ordering solver is bypassed, so the pattern must admit SH + EOS as they are
+    return dict(stratum="multi", cf=cf, specs=[], column=cols, kinds=kinds, pattern=pname, regex=regex, entry=entry)
+
+
+# ---------------------------------------------------------------------------
+# real levels 1-7 without pictures (sequence header + end of sequence; their ordering patterns admit that)
+
+
+@st.composite
+def real0_cases(draw, entry="make_sequence"):
+    cols = [(i, c) for i, c in H.real_columns() if H._cell_values(c["level"], [])[0] <= 7]
+    ci, col = cols[draw(st.integers(0, len(cols) - 1))]
+    level = H._cell_values(col["level"], [])[0]
+    siblings = [(i, c) for i, c in cols if i != ci and H._cell_values(c["level"], [])[0] == level]
+    mix = bool(siblings) and draw(st.integers(0, 2)) == 0
+    bi, bcol = siblings[draw(st.integers(0, len(siblings) - 1))] if mix else (ci, col)
+    b = draw(st.sampled_from(H._cell_values(bcol["base_video_format"], [])))
+    pcm = PictureCodingModes(draw(st.sampled_from(H._cell_values((bcol if mix and draw(st.booleans()) else col)["picture_coding_mode"], [0, 1]))))
+    vp = H.base_vp(b)
+    custom = []
+    for g in ["frame_size", "color_diff", "scan", "frame_rate", "par", "clean_area", "signal_range", "color_spec"]:
+        flag = col[H.FLAG_OF[g]]
+        if True in flag and (False not in flag or draw(st.integers(0, 2)) == 0):
+            if H.customise_from_cells(draw, vp, pcm, col, g):
+                custom.append(g)
+    near = "mix" if mix else "none"
+    if draw(st.integers(0, 3)) == 0:
+        g = draw(st.sampled_from(H.GROUPS))
+        H.perturb(draw, vp, pcm, g)
+        near += "+" + g
+    H.fixup(vp, pcm)
+    profile = Profiles(draw(st.sampled_from([0, 3])))
+    wavelet = draw(st.sampled_from(H._cell_values(col["wavelet_index"], [0, 1, 2, 3, 4])))
+    depth = draw(st.sampled_from(H._cell_values(col["dwt_depth"], [0, 1, 2, 3, 4])))
+    sx, sy = draw(st.sampled_from([1, 1, 2, 4, 5, 8])), draw(st.sampled_from([1, 1, 2, 3, 4]))
+    if not H._own_same_dimensions(vp, pcm, depth, sx, sy) and draw(st.integers(0, 4)) != 0:
+        sx = sy = 1
+    pb = None if profile == Profiles.high_quality and draw(st.booleans()) else sx * sy * draw(st.integers(4, 64))
+    cf = H.make_cf(level, profile, pcm, vp, wavelet, depth, sx, sy, pb)
+    cf["name"] = "c16real0"
+    return dict(stratum="real0", cf=cf, specs=[], column=None, kinds={"near": near, "custom": "+".join(custom) or "none"},
+                pattern="real", regex=None, table_column=ci, base_column=bi, entry=entry)
+
+
+# ---------------------------------------------------------------------------
 # property
 
 
 def case_json(case):
-    d = {k: case.get(k) for k in ("stratum", "column", "kinds", "pattern", "regex", "diag_key", "table_column")}
+    d = {k: case.get(k) for k in ("stratum", "column", "kinds", "pattern", "regex", "diag_key", "table_column", "base_column", "entry")}
     d["config"] = G.config_json(case["cf"])
     d["specs"] = [list(s) for s in case["specs"]]
     return d
 
 
 def case_from_json(d):
-    case = {k: d.get(k) for k in ("stratum", "column", "kinds", "pattern", "regex", "diag_key", "table_column")}
+    case = {k: d.get(k) for k in ("stratum", "column", "kinds", "pattern", "regex", "diag_key", "table_column", "base_column", "entry")}
     case["cf"] = G.config_from_json(d["config"])
     case["specs"] = [tuple(s) for s in d["specs"]]
     case["kinds"] = case["kinds"] or {}
@@ -441,7 +561,16 @@ def run_encoder_and_validator(case):
     cf = case["cf"]
     pictures = P.build_pictures(cf, case["specs"], None)
     try:
-        blob, seq = S.encode(cf, pictures)
+        if case.get("entry") == "header_unit":
+            # picture-less shortcut: the two data units make_sequence(cf, []) consists of, without its ordering solver
+            from vc2_conformance import bitstream as B
+            from vc2_conformance.encoder.sequence import make_end_of_sequence_data_unit
+            from vc2_conformance.encoder.sequence_header import make_sequence_header_data_unit
+
+            seq = B.Sequence(data_units=[make_sequence_header_data_unit(cf), make_end_of_sequence_data_unit()])
+            blob = S.serialise_stream(B.Stream(sequences=[seq]))
+        else:
+            blob, seq = S.encode(cf, pictures)
     except UnsatisfiableCodecFeaturesError as e:
         return "raise", type(e).__name__
     except OutOfRangeError as e:
@@ -478,7 +607,7 @@ def err_tag(e, full=True):
 def body(case, col):
     cf, stratum, kinds = case["cf"], case["stratum"], case["kinds"]
     data = case_json(case)
-    if stratum == "real":
+    if stratum in ("real", "real0"):
         outcome, detail = run_encoder_and_validator(case)
     else:
         with substituted_level(SYN_LEVEL, case["column"], case["regex"]):
@@ -486,7 +615,7 @@ def body(case, col):
     lab = ["stratum:" + stratum, "pattern:" + case["pattern"], "profile:" + ("LD" if cf["profile"] == Profiles.low_delay else "HQ")]
     if cf["fragment_slice_count"]:
         lab.append("fragments")
-    key = (G.config_key(cf), repr(sorted((case["column"] or {}).items(), key=lambda kv: kv[0])), case["regex"], stratum)
+    key = (G.config_key(cf), column_repr(case["column"]), case["regex"], stratum)
     if stratum == "diag":
         # never a violation: outcomes of restricting caller-owned keys are only counted
         dk = case["diag_key"]
@@ -497,11 +626,22 @@ def body(case, col):
         return
     nrestrict = restricting_encoder_cells(kinds)
     trivial_restricted = [k for k in TRIVIAL_KEYS if kinds.get(k) in ("restrict", "empty")]
-    for k, kind in kinds.items():
-        if k in ("tightness", "near", "victim"):
-            continue
-        lab.append("cell:%s:%s" % (key_class(k), kind))
-    lab.append("restricting_encoder_cells:%s" % (nrestrict if nrestrict < 6 else "6+"))
+    octx = outcome if outcome != "raise" else "raise:" + str(detail)
+    if stratum == "multi":
+        lab += ["multi:entry:%s" % case.get("entry"), "multi:columns:%d" % kinds["columns"], "multi:trivial_%s" % ("shared" if kinds["trivial_shared"] else "independent"),
+                "multi:%s:%s" % (kinds["directed"].partition(":")[2] or "plain", outcome),
+                "multi:group:%s" % kinds["directed"].partition(":")[0]]
+    elif stratum == "real0":
+        lab += ["real0:level:%d:%s" % (int(cf["level"]), outcome), "real0:column:%s" % case.get("table_column"),
+                "real0:entry:%s" % case.get("entry"),
+                "real0:near:%s:%s" % (kinds["near"].partition("+")[0] + ("+perturbed" if "+" in kinds["near"] else ""), octx),
+                "real0:customised:%s" % kinds["custom"]]
+    else:
+        for k, kind in kinds.items():
+            if k in ("tightness", "near", "victim"):
+                continue
+            lab.append("cell:%s:%s" % (key_class(k), kind))
+        lab.append("restricting_encoder_cells:%s" % (nrestrict if nrestrict < 6 else "6+"))
     if "tightness" in kinds:
         lab.append("table:%s:%s" % (kinds["tightness"], outcome))
     if "victim" in kinds:
@@ -513,12 +653,13 @@ def body(case, col):
     nt = False
     if outcome == "raise":
         lab += ["outcome:raise", "raise:" + detail]
-        nt = bool(trivial_restricted) or (stratum == "real" and kinds.get("near") not in (None, "none"))
+        nt = (bool(trivial_restricted) or (stratum in ("real", "real0") and kinds.get("near") not in (None, "none"))
+              or (stratum == "multi" and kinds["directed"] != "plain"))
         if trivial_restricted:
             lab.append("raise_with_trivial_restricted")
     elif outcome == "accept":
         lab.append("outcome:accept")
-        nt = nrestrict >= 2 or stratum == "real"
+        nt = nrestrict >= 2 or stratum in ("real", "real0", "multi")
         if trivial_restricted:
             col.count("note:accepted_although_trivial_cell_excludes_own_prediction")
     elif outcome == "unrepresentable":
@@ -528,15 +669,25 @@ def body(case, col):
         e = detail
         col.fail("rejected:%s:%s" % (stratum, err_tag(e, full=False)), data,
                  "encoder produced a sequence for level %d (%s table, pattern %s) but the validator rejects it: %s: %s"
-                 % (int(cf["level"]), "substituted" if stratum == "main" else "real", case["pattern"], type(e).__name__,
+                 % (int(cf["level"]), {"main": "substituted", "multi": "substituted multi-column"}.get(stratum, "real"), case["pattern"],
+                    type(e).__name__,
                     " ".join(e.explain().split())[:400]))
     else:
         lab.append("outcome:" + outcome)
         col.fail(col.crash_bucket(detail, outcome), data, "%s: %s: %s" % (outcome, type(detail).__name__, detail))
     col.case(key=key, nontrivial=nt, labels=lab,
-             sample=lambda: {"config": data["config"], "column": {k: v for k, v in (case["column"] or {}).items() if v != "any"},
+             sample=lambda: {"config": data["config"], "stratum": stratum,
+                             "column": [{k: v for k, v in cj.items() if v != "any"} for cj in as_columns(case["column"])],
                              "pattern": case["regex"], "outcome": outcome,
                              "detail": detail if isinstance(detail, (str, list)) else repr(detail)})
+
+
+def as_columns(column):
+    return column if isinstance(column, list) else ([column] if column else [])
+
+
+def column_repr(column):
+    return repr([sorted(cj.items(), key=lambda kv: kv[0]) for cj in as_columns(column)])
 
 
 def cell_text(j):
@@ -574,19 +725,29 @@ def big_real(level, col):
 
 def shards(tier):
     if tier == "quick":
-        return [("main", k) for k in range(12)] + [("diag", k) for k in range(2)] + [("real", k) for k in range(2)]
-    return ([("main", k) for k in range(44)] + [("diag", k) for k in range(6)] + [("real", k) for k in range(8)]
-            + [("real2", k) for k in range(4)] + [("big", 64), ("big", 65)])
+        return ([("main", k) for k in range(10)] + [("multi", k) for k in range(3)] + [("real0", k) for k in range(2)]
+                + [("multih", 0), ("real0h", 0), ("diag", 0)] + [("real", k) for k in range(2)])
+    return ([("main", k) for k in range(40)] + [("multi", k) for k in range(8)] + [("multih", k) for k in range(4)]
+            + [("real0", k) for k in range(6)] + [("real0h", k) for k in range(4)] + [("diag", k) for k in range(6)]
+            + [("real", k) for k in range(8)] + [("real2", k) for k in range(4)] + [("big", 64), ("big", 65)])
 
 
 def run_shard(spec, ctx):
     kind, k = spec
     if kind == "main":
         run_given(cases("main"), body, ctx, ctx.pick(250, 1500))
+    elif kind == "multi":
+        run_given(multi_cases("make_sequence"), body, ctx, ctx.pick(250, 3000))
+    elif kind == "multih":
+        run_given(multi_cases("header_unit"), body, ctx, ctx.pick(2000, 15000))
+    elif kind == "real0":
+        run_given(real0_cases("make_sequence"), body, ctx, ctx.pick(40, 400))
+    elif kind == "real0h":
+        run_given(real0_cases("header_unit"), body, ctx, ctx.pick(5000, 15000))
     elif kind == "diag":
-        run_given(cases("diag"), body, ctx, ctx.pick(200, 600))
+        run_given(cases("diag"), body, ctx, ctx.pick(300, 600))
     elif kind == "real":
-        run_given(real_cases((1,)), body, ctx, ctx.pick(30, 100))
+        run_given(real_cases((1,), max_base=ctx.pick(2, 4)), body, ctx, ctx.pick(10, 100))
     elif kind == "real2":
         run_given(real_cases((2,)), body, ctx, 6, shrink=False)
     else:
